@@ -153,8 +153,8 @@ func randBytesVal(r *vh.Rng, n int) vh.Val {
 	return vh.L(vh.A("bytes"), vh.X(r.Bytes(n)))
 }
 
-// genColumn draws a column of any supported (non-JSON) type with a value generator.
-func genColumn(r *vh.Rng, idx int) colDef { return genColumnCase(r, idx, r.Intn(22)) }
+// genColumn draws a column of any supported type (JSON included) with a value generator.
+func genColumn(r *vh.Rng, idx int) colDef { return genColumnCase(r, idx, r.Intn(23)) }
 
 // column-type cases of genColumnCase per property
 var (
@@ -162,6 +162,7 @@ var (
 	colCasesC11 = []int{11}
 	colCasesC12 = []int{12, 13, 14, 15}
 	colCasesC13 = []int{16, 17, 18, 19, 20, 21}
+	colCasesC14 = []int{22}
 )
 
 func genColumnCase(r *vh.Rng, idx int, kase int) colDef {
@@ -332,12 +333,62 @@ func genColumnCase(r *vh.Rng, idx int, kase int) colDef {
 			}
 			return randBytesVal(r, n)
 		}
-	default:
+	case 21:
 		lb := 1 + r.Intn(4)
 		cd.ty, cd.key = sym("geo", int64(lb)), "geometry"
 		cd.gen = func(r *vh.Rng) vh.Val { return randBytesVal(r, r.Intn(40)) }
+	default:
+		// JSON: lb length bytes, then the binary document (Spec.Values: TJson lb / VJson d)
+		lb := 1 + r.Intn(4)
+		cd.ty, cd.key = sym("json", int64(lb)), "json"
+		cd.gen = func(r *vh.Rng) vh.Val { return jsonCellVal(r, lb) }
 	}
 	return cd
+}
+
+// ---- JSON column values: the documents of C14's generator (c14.go), kept small ----
+
+var jsonDecFixed = struct {
+	probed, fixed bool
+}{}
+
+// jsonCellVal draws a (json <doc>) cell value whose serialisation fits lb length bytes: empty object / array,
+// scalars of every family (integers at the inlining boundaries, doubles, strings with exotic bytes, opaque
+// DECIMAL / TIME / DATETIME / DATE), and nested containers of depth <= 3 in the small, large or mixed formats.
+func jsonCellVal(r *vh.Rng, lb int) vh.Val {
+	if !jsonDecFixed.probed {
+		jsonDecFixed.probed, jsonDecFixed.fixed = true, probeDecimalFixed()
+	}
+	g := &jgen{r: r, decFixed: jsonDecFixed.fixed}
+	limit := 1 << 30
+	if lb < 4 {
+		limit = 1 << uint(8*lb)
+	}
+	for try := 0; try < 6; try++ {
+		g.longStr = 2 // no strings of 16 KB and more in histories
+		var d *jd
+		switch r.Intn(10) {
+		case 0:
+			d = &jd{k: "obj", large: r.Chance(1, 4)}
+		case 1:
+			d = &jd{k: "arr", large: r.Chance(1, 4)}
+		case 2, 3:
+			d = g.scalar()
+		case 4:
+			d = g.chain(1+r.Intn(3), func(int) bool { return r.Chance(1, 3) })
+		default:
+			depth := 1 + r.Intn(3)
+			if lb == 1 {
+				depth = 1
+			}
+			d = g.doc(depth, 1+r.Intn(4), r.Pick(0, 0, 30, 100))
+		}
+		d.fixFormats()
+		if 1+d.bodyLen() < limit {
+			return vh.L(vh.A("json"), d.sexp())
+		}
+	}
+	return vh.L(vh.A("json"), (&jd{k: "i16", i: int64(int16(r.U64()))}).sexp())
 }
 
 func min(a, b int) int {
